@@ -1,0 +1,12 @@
+//go:build verif
+
+// Contracts for package beta (SPDX 3 serializer).
+package beta
+
+//@ func SPDX3.Serialize
+//@   props C07
+//@   assigns \nothing
+
+//@ func SPDX3.Render
+//@   props C07
+//@   requires o != nil
